@@ -93,3 +93,25 @@ Theorem C09_nonproductive_refuted :
   validate g2 sts2 tbl2 = true /\ no_error_symbol g2 tbl2 = true /\ LRSound.tokens_ok g2 [1] /\ productive g2 /\ LRMachine.msteps g2 tbl2 1 ([0], [], [1]) ([2; 0], [Leaf 1], []) /\ ~ sentence_prefix g2 [1].
 Proof. exact shifted_prefix_not_viable. Qed.
 Print Assumptions C09_nonproductive_refuted.
+
+(* ---- namespace stdex / utils below the model (appended by tools/append_props.py) *)
+Require Import Ctpg.Base.Prelude.
+Require Import Ctpg.Model.Grammar.
+Require Import Ctpg.Model.Containers.
+Require Import Ctpg.Model.Utils.
+Require Import Ctpg.Proofs.ContainersBits.
+Require Import Ctpg.Proofs.ContainersVec.
+Require Import Ctpg.Proofs.ContainersSort.
+Require Import Ctpg.Proofs.UtilsCorrect.
+
+(* utils::char_names (the byte printed by 'Unexpected character'): printable bytes 33..126 are themselves, every other byte (space, control, >= 0x80) is \\xHH in upper-case hex *)
+Theorem C09_byte_names_in_messages :
+  forall b : nat, b < 256 -> char_name b = (if (32 <? b) && (b <? 127) then [b; 0] else [92; 120; hex_digit_char (b / 16); hex_digit_char (b mod 16); 0]).
+Proof. exact @char_name_spec. Qed.
+Print Assumptions C09_byte_names_in_messages.
+
+(* distinct bytes have distinct names *)
+Theorem C09_byte_names_identify_the_byte :
+  forall a b : nat, a < 256 -> b < 256 -> char_name a = char_name b -> a = b.
+Proof. exact @char_name_injective. Qed.
+Print Assumptions C09_byte_names_identify_the_byte.
